@@ -13,4 +13,7 @@ from mirsym import load
 print('replay binary:', native.build('dev'))
 p = load.program()
 print('MIR bodies:', len(p.bodies))
+from vlib import kani
+res, wall, out = kani.run(['kind_codes'])
+print('kani warm-up:', {k: v['status'] for k, v in res.items()}, '%.0fs' % wall)
 PY
